@@ -69,7 +69,8 @@ pub enum Op {
 #[derive(Clone, Debug, PartialEq, Eq)]
 pub enum OpRet {
     Unit,
-    Data(Option<Vec<u8>>, Vec<usize>),
+    /// value, vertices removed by the call, encoding of the answer (0 none, 1 inline, 2 heap)
+    Data(Option<Vec<u8>>, Vec<usize>, u8),
     Id(usize),
 }
 
@@ -401,7 +402,15 @@ impl<const N: usize> Exec<N> {
                 g.put(*v, &h);
                 OpRet::Unit
             }
-            Op::Data(v) => OpRet::Data(g.data(*v).map(|h| h.bytes().to_vec()), vec![]),
+            Op::Data(v) => {
+                let h = g.data(*v);
+                let enc = match &h {
+                    None => 0,
+                    Some(Hex::Bytes(..)) => 1,
+                    Some(Hex::Vector(_)) => 2,
+                };
+                OpRet::Data(h.map(|h| h.bytes().to_vec()), vec![], enc)
+            }
             Op::NextId => OpRet::Id(g.next_id()),
         });
         if poisoned {
@@ -611,7 +620,7 @@ impl<const N: usize> Exec<N> {
             }
             Op::Data(v) => {
                 let out = if self.view.cfg.adopt_alive { m.data_adopt(*v, &removed) } else { m.data(*v) };
-                if let OpRet::Data(val, rem) = &mut ret {
+                if let OpRet::Data(val, rem, _) = &mut ret {
                     *rem = removed.clone();
                     if *val != out.value {
                         let owners: Owners = if out.value.is_none() && inst.m.collected_ever.contains(v) {
